@@ -211,7 +211,11 @@ def run(ctx) -> None:
         match = [p for p in paths if conds_hold(p.conds, cfg) is not False]
         definite = [p for p in match if conds_hold(p.conds, cfg) is True]
         label = f"{cfg['econmodel.value'][1]}/{cfg['enduse_option.value'][1]}/{cfg['plant_type.value'][1]}"
-        if len(definite) != 1 or len(match) != 1:
+        if len(match) != len(definite):
+            # a guard that is not an enum comparison (even through its aliases) is outside what this rule can evaluate
+            raise AnalysisError(f'CalculateLCOELCOHLCOC: configuration {label}: {len(match) - len(definite)} path guard(s) cannot be '
+                                f'evaluated over the option enums (idiom changed)')
+        if len(definite) != 1:
             k = 'CalculateLCOELCOHLCOC/ambiguous-path'
             if k not in reported:
                 reported.add(k)
